@@ -64,6 +64,15 @@ def setup(E, shape):
     vk, ck = shape.get("vars", ["boxed"]), shape.get("cons", [])
     user, spec = common.make_problem(E, vk, ck, faults=make_faults(E, shape.get("faults", False)))
     n, m = spec["n"], spec["m"]
+    if shape.get("concrete_params") and shape.get("tame_box"):
+        # replayable models: finite bounds of moderate size, boxes not thinner than 1/8
+        for l, u in zip(spec["xl"], spec["xu"]):
+            if l != -INF:
+                E.assume(land(l >= -8.0, l <= 8.0))
+            if u != INF:
+                E.assume(land(u >= -8.0, u <= 8.0))
+            if l != -INF and u != INF:
+                E.assume(u - l >= 0.125)
     solves = []
     replay = dict(script=None, rcond=False, outs=[], beyond=False)
     max_solves = shape.get("max_solves", 3)
